@@ -1945,6 +1945,247 @@ def rule_wiring(cx, chk):
     return iparams, fields
 
 
+def _oi():
+    from .. import ointerp
+    return ointerp
+
+
+def _env(**kw):
+    e = _oi().Env()
+    e.vars.update(kw)
+    return e
+
+
+def make_ointerp(cx, where, budget=3000000):
+    """the shared object interpreter (sa/ointerp.py) with the stand-ins this package needs: compiled patterns over the
+    regex syntax trees, Decimal, floor, and the attribute builtins on interpreted objects"""
+    import decimal
+    import math
+    oi = _oi()
+
+    def odict(d):
+        return {k: (k, v) for k, v in d.items()}
+
+    def rx_compile(it, a, k):
+        if len(a) != 1 or not isinstance(a[0], str) or k:
+            raise AnalysisError('%s: re.compile with flags is not modelled' % where)
+        r = RegexStandIn(a[0])
+
+        def match(it2, a2, k2):
+            if len(a2) != 1 or not isinstance(a2[0], str):
+                raise oi.PyExc('TypeError: expected string')
+            m = r.match(a2[0])
+            if m is None:
+                return None
+            return oi.Native({'groupdict': oi.native(lambda i3, a3, k3: odict(m.groupdict())),
+                              'group': oi.native(lambda i3, a3, k3: m.group(*a3))}, 'match')
+        return oi.Native({'match': oi.native(match)}, 'pattern')
+
+    def _getattr(it, a, k):
+        o, n = a[0], a[1]
+        if isinstance(o, oi.Obj) and n in o.attrs:
+            return o.attrs[n]
+        try:
+            return it.getattr(o, n, None, None)
+        except oi.PyExc:
+            if len(a) == 3:
+                return a[2]
+            raise
+
+    def _hasattr(it, a, k):
+        try:
+            _getattr(it, a[:2], k)
+            return True
+        except oi.PyExc:
+            return False
+
+    def _setattr(it, a, k):
+        o, n, v = a
+        if not isinstance(o, oi.Obj) or not isinstance(n, str):
+            raise AnalysisError('%s: setattr on something else than an interpreted object' % where)
+        if o.cls is not None and hasattr(o.cls, 'methods'):
+            for kk in it.idx.mro(o.cls):
+                st = kk.methods.get('%s#setter' % n)
+                if st is not None:
+                    it.call_function(oi.FuncRef(kk.mod, st, kk), [v], {}, None, selfobj=o)
+                    return None
+        o.attrs[n] = v
+        return None
+
+    def _delattr(it, a, k):
+        o, n = a
+        if not isinstance(o, oi.Obj) or n not in o.attrs:
+            raise oi.PyExc('AttributeError: %s' % n)
+        del o.attrs[n]
+        return None
+
+    def _int(it, a, k):
+        try:
+            return int(*a)
+        except (TypeError, ValueError, ArithmeticError) as ex:
+            raise oi.PyExc('%s: %s' % (type(ex).__name__, ex))
+
+    def _str(it, a, k):
+        if len(a) == 1 and isinstance(a[0], (str, int, float, bool, type(None), decimal.Decimal)):
+            return str(a[0])
+        raise AnalysisError('%s: str() of %r is not modelled' % (where, a))
+
+    def _num(f, a):
+        if not all(isinstance(x, (int, float, decimal.Decimal)) and not isinstance(x, bool) for x in a):
+            raise oi.PyExc('TypeError: %s of %r' % (f.__name__, a))
+        try:
+            return f(*a)
+        except (TypeError, ValueError, ArithmeticError) as ex:
+            raise oi.PyExc('%s: %s' % (type(ex).__name__, ex))
+
+    def _dedupe(it, a, k):
+        out = []
+        for x in a[-1]:
+            if x not in out:
+                out.append(x)
+        return out
+
+    hooks = {'regex.compile': rx_compile, 'name:getattr': _getattr, 'name:hasattr': _hasattr, 'name:setattr': _setattr,
+             'name:delattr': _delattr, 'name:int': _int, 'name:str': _str,
+             'name:Decimal': lambda it, a, k: decimal.Decimal(a[0]),
+             'name:floor': lambda it, a, k: math.floor(a[0]), 'name:ceil': lambda it, a, k: math.ceil(a[0]),
+             'name:divmod': lambda it, a, k: _num(divmod, a), 'name:round': lambda it, a, k: _num(round, a),
+             'TimexRangeResolver.remove_duplicates': _dedupe}
+    class Interp(oi.Interp):
+        """+ f-strings with a format spec or conversion (values: numbers, strings, Decimal)"""
+
+        def ev(self, e, env, mod, cls):
+            if isinstance(e, ast.JoinedStr) and any(isinstance(p, ast.FormattedValue) and
+                                                    (p.format_spec is not None or p.conversion != -1) for p in e.values):
+                out = []
+                for p in e.values:
+                    if isinstance(p, ast.Constant):
+                        out.append(p.value)
+                        continue
+                    v = self.ev(p.value, env, mod, cls)
+                    if not isinstance(v, (int, float, str, decimal.Decimal, type(None))):
+                        self.fail(e, 'f-string field of %r' % (v,))
+                    spec = self.ev(p.format_spec, env, mod, cls) if p.format_spec is not None else ''
+                    if p.conversion == ord('r'):
+                        v = repr(v)
+                    elif p.conversion == ord('s'):
+                        v = str(v)
+                    elif p.conversion != -1:
+                        self.fail(e, 'f-string conversion')
+                    try:
+                        out.append(format(v, spec))
+                    except (TypeError, ValueError) as ex:
+                        raise oi.PyExc('%s: %s' % (type(ex).__name__, ex))
+                return ''.join(out)
+            return oi.Interp.ev(self, e, env, mod, cls)
+
+    return Interp(cx.idx, hooks, budget=budget, where=where)
+
+
+MUTABLE_CTORS_OK = ('int', 'str', 'float', 'bool', 'tuple', 'frozenset', 'bytes', 'Decimal')
+
+
+def mutable_default_stores(fn):
+    """(parameter, default text, store text, node) for parameters whose default is a mutable object created once at
+    definition time (a call, a list/dict/set display) and that are stored into an attribute or handed to setattr"""
+    ps = fn.args.posonlyargs + fn.args.args
+    defaults = dict(zip([a.arg for a in ps][len(ps) - len(fn.args.defaults):], fn.args.defaults))
+    for a, d in zip(fn.args.kwonlyargs, fn.args.kw_defaults):
+        if d is not None:
+            defaults[a.arg] = d
+    risky = {}
+    for p, d in defaults.items():
+        if isinstance(d, (ast.List, ast.Dict, ast.Set, ast.ListComp, ast.DictComp, ast.SetComp)):
+            risky[p] = d
+        elif isinstance(d, ast.Call) and (chain(d.func) or '').split('.')[-1] not in MUTABLE_CTORS_OK:
+            risky[p] = d
+    out = []
+    if not risky:
+        return out
+    alias = {p: p for p in risky}
+    for n in ast.walk(fn):
+        if isinstance(n, ast.Assign) and isinstance(n.value, ast.Name) and n.value.id in alias:
+            for t in n.targets:
+                if isinstance(t, ast.Name):
+                    alias[t.id] = alias[n.value.id]
+    for n in ast.walk(fn):
+        if isinstance(n, ast.Assign) and isinstance(n.value, ast.Name) and n.value.id in alias:
+            for t in n.targets:
+                if isinstance(t, ast.Attribute):
+                    p = alias[n.value.id]
+                    out.append((p, ast.unparse(risky[p]), ast.unparse(t) + ' = ' + n.value.id, n))
+        elif isinstance(n, ast.Call) and chain(n.func) == 'setattr' and len(n.args) == 3 \
+                and isinstance(n.args[2], ast.Name) and n.args[2].id in alias:
+            p = alias[n.args[2].id]
+            out.append((p, ast.unparse(risky[p]), ast.unparse(n), n))
+    return out
+
+
+def rule_shared(cx, chk):
+    """no mutable default argument ends up in instance state"""
+    n = 0
+    for name, m in sorted(cx.idx.mods.items()):
+        if not (name == PKG or name.startswith(PKG + '.')):
+            continue
+        for mm, c, fn in cx.idx.functions(m):
+            if not fn.args.defaults and not any(d is not None for d in fn.args.kw_defaults):
+                continue
+            n += 1
+            hits = mutable_default_stores(fn)
+            q = '%s.%s' % (c.name, fn.name) if c else fn.name
+            if not hits:
+                chk.ok('C14.shared', m.path, q + ' defaults', 'no mutable default reaches an attribute', fn.lineno)
+            for p, dflt, store, node in hits:
+                chk.bad('C14.shared', m.path, '%s(%s=%s)' % (q, p, dflt), store,
+                        'the default %s=%s is created once, when the function is defined, and `%s` installs that one object '
+                        'in every instance: two Timex objects then share mutable state and one TIMEX changes what another '
+                        'formats to' % (p, dflt, store), node.lineno)
+    ctl = ast.parse("def f(self, part, value, initial=Time(0, 0, 0)):\n    setattr(self, '__time', initial)\n").body[0]
+    ctl2 = ast.parse("def g(self, a, b=None, c=(), d=Decimal('1')):\n    self.a = b\n    self.c = c\n    self.d = d\n").body[0]
+    chk.control('C14.shared', len(mutable_default_stores(ctl)) == 1 and not mutable_default_stores(ctl2))
+
+
+def rule_fromvalue(cx, chk):
+    """Timex.from_time / from_date / from_date_time, run on a grid of python values: the canonical TIMEX comes out"""
+    oi = _oi()
+    tcls = cx.cls('timex', 'Timex')
+    time_cls = cx.cls('time', 'Time')
+    it = make_ointerp(cx, 'C14.fromvalue')
+
+    def canon_time(h, m, s):
+        return 'T%02d' % h if (m, s) == (0, 0) else 'T%02d:%02d' % (h, m) if s == 0 else 'T%02d:%02d:%02d' % (h, m, s)
+
+    def fmt(o):
+        return it.call_value(it.getattr(o, 'timex_value', None, None), [], {}, None)
+
+    def run(mname, arg):
+        fn = cx.meth('timex', 'Timex', mname)
+        return fmt(it.call_function(oi.FuncRef(tcls.mod, fn, tcls), [arg], {}, None))
+
+    times = [(h, m, s) for h in (0, 9, 10, 23) for m in (0, 5, 20, 59) for s in (0, 7, 30, 59)]
+    dates = [(2016, 2, 29), (1, 1, 1), (9999, 12, 31), (2020, 10, 5)]
+    cases = [('from_time', times, lambda v: it.instantiate(time_cls, list(v), {}, None), lambda v: canon_time(*v)),
+             ('from_date', dates,
+              lambda v: oi.Native(dict(zip(('year', 'month', 'day', 'hour', 'minute', 'second'), v + (11, 12, 13))), 'date'),
+              lambda v: '%04d-%02d-%02d' % v),
+             ('from_date_time', [d + t for d in dates for t in ((0, 0, 0), (10, 20, 30), (23, 59, 0), (0, 0, 5))],
+              lambda v: oi.Native(dict(zip(('year', 'month', 'day', 'hour', 'minute', 'second'), v)), 'datetime'),
+              lambda v: '%04d-%02d-%02d' % v[:3] + canon_time(*v[3:]))]
+    for mname, grid, make, want in cases:
+        bad = None
+        for v in grid:
+            try:
+                got = run(mname, make(v))
+            except oi.PyExc as ex:
+                got = 'raises %s' % ex
+            if got != want(v) and bad is None:
+                bad = (v, got, want(v))
+        chk.judge(bad is None, 'C14.fromvalue', tcls.mod.path, 'Timex.%s on %d values' % (mname, len(grid)),
+                  'canonical TIMEX' if bad is None else '%s -> %r' % bad[:2],
+                  'Timex.%s(%s).timex_value() is %r, the canonical TIMEX of that value is %r'
+                  % ((mname,) + (bad or ('', '', ''))), cx.meth('timex', 'Timex', mname).lineno)
+
+
 def rule_time_plumbing(cx, chk):
     """hour / minute / second are properties over one shared Time object"""
     tcls = cx.cls('timex', 'Timex')
@@ -1964,66 +2205,72 @@ def rule_time_plumbing(cx, chk):
         else:
             chk.judge(tstores[p][0] == p, 'C14.timeprop', tpath, 'Time.__init__(%s)' % p, 'self.%s = %s' % (tstores[p][0], p),
                       'Time.__init__ stores parameter %r in attribute %r' % (p, tstores[p][0]), tstores[p][1])
-    keys = set()
-    for name in ZERO_VALID:
-        getter = tcls.methods.get(name)
-        setter = tcls.methods.get(name + '#setter')
-        if getter is None or setter is None or not any(chain(d) == 'property' for d in getter.decorator_list):
-            raise AnalysisError('Timex.%s: expected a property with a setter' % name)
-        # getter
-        rets = [r for r in ast.walk(getter) if isinstance(r, ast.Return) and r.value is not None
-                and not (isinstance(r.value, ast.Constant) and r.value.value is None)]
-        if not rets:
-            raise AnalysisError('Timex.%s getter returns nothing' % name)
-        for r in rets:
-            v = r.value
-            if not (isinstance(v, ast.Attribute) and isinstance(v.value, ast.Call) and chain(v.value.func) == 'getattr'):
-                raise AnalysisError('%s:%d Timex.%s getter: idiom getattr(self, K).<attr> not recognised'
-                                    % (tcls.mod.rel, r.lineno, name))
-            keys.add(const_value(cx.idx, tcls.mod, tcls, v.value.args[1]))
-            chk.judge(v.attr == name, 'C14.timeprop', path, 'Timex.%s getter' % name, 'reads .%s' % v.attr,
-                      'the %s property returns the .%s of the shared Time object' % (name, v.attr), r.lineno)
-        # setter
-        vparam = params_of(setter)[1]
-        made = False
-        for c in calls_in(setter):
-            ch = chain(c.func)
-            if ch in ('getattr', 'setattr', 'hasattr', 'delattr') and len(c.args) >= 2:
-                keys.add(const_value(cx.idx, tcls.mod, tcls, c.args[1]))
-            if ch == 'Time':
-                made = True
-                if c.keywords:
-                    args = {k.arg: k.value for k in c.keywords}
-                else:
-                    args = dict(zip(tparams, c.args))
-                pos = [p for p, a in args.items() if isinstance(a, ast.Name) and a.id == vparam]
-                others = [p for p, a in args.items() if not (isinstance(a, ast.Name) and a.id == vparam)]
-                zeros = all(isinstance(args[p], ast.Constant) and args[p].value == 0 and args[p].value is not False
-                            for p in others)
-                chk.judge(pos == [name] and len(args) == len(tparams), 'C14.timeprop', path,
-                          'Timex.%s setter Time(...)' % name, 'value -> %s' % ','.join(pos),
-                          'the %s setter creates the Time object with the value in position %s' % (name, pos or '-'),
-                          c.lineno)
-                chk.judge(zeros, 'C14.timeprop', path, 'Timex.%s setter Time(...) defaults' % name,
-                          'others = %s' % ','.join(ast.unparse(args[p]) for p in others),
-                          'the %s setter must default the other two components to 0 (T%s alone is a full time; '
-                          'None or another value changes inference / the emitted form)' % (name, 'hh'), c.lineno)
-        if not made:
-            raise AnalysisError('Timex.%s setter: construction of the shared Time object not recognised' % name)
-        wrote = False
-        for st in ast.walk(setter):
-            if isinstance(st, ast.Assign) and isinstance(st.targets[0], ast.Attribute) \
-                    and isinstance(st.value, ast.Name) and st.value.id == vparam:
-                wrote = True
-                chk.judge(st.targets[0].attr == name, 'C14.timeprop', path, 'Timex.%s setter update' % name,
-                          'writes .%s' % st.targets[0].attr,
-                          'the %s setter writes .%s of the shared Time object' % (name, st.targets[0].attr), st.lineno)
-        if not wrote:
-            raise AnalysisError('Timex.%s setter: update of an existing Time object not recognised' % name)
-    chk.judge(len(keys) == 1 and all(isinstance(k, str) for k in keys), 'C14.timeprop', path,
-              'Timex hour/minute/second backing attribute',
-              ','.join(sorted(str(k) for k in keys)),
-              'the three properties do not share one backing attribute: %s' % sorted(str(k) for k in keys))
+    # the properties themselves, decided by running them (object interpreter: property getters and setters,
+    # hasattr/getattr/setattr/delattr, default arguments evaluated once as Python does)
+    it = make_ointerp(cx, 'C14.timeprop')
+    parts = list(ZERO_VALID)
+
+    def new():
+        return it.instantiate(tcls, [], {}, None)
+
+    def read(o):
+        return tuple(it.getattr(o, p, None, None) for p in parts)
+
+    def write(o, p, v):
+        it.assign(ast.Attribute(value=ast.Name(id='o', ctx=ast.Load()), attr=p, ctx=ast.Store()), v, _env(o=o), tcls.mod, None)
+
+    def scenario(construct, detail_ok, run, msg):
+        try:
+            ok, got = run()
+        except _oi().PyExc as ex:
+            ok, got = False, 'raises %s' % ex
+        chk.judge(ok, 'C14.timeprop', path, construct, detail_ok if ok else str(got), msg % {'got': got}, tcls.node.lineno)
+
+    for k, p in enumerate(parts):
+        want = tuple(7 if q == p else 0 for q in parts)
+
+        def one(p=p, want=want):
+            o = new()
+            if read(o) != (None, None, None):
+                return False, 'fresh Timex reads %s' % (read(o),)
+            write(o, p, 7)
+            return read(o) == want, read(o)
+        scenario('Timex().%s = 7' % p, '(hour, minute, second) = %s' % (want,), one,
+                 'after setting only ' + p + ' = 7 on a fresh Timex, (hour, minute, second) reads %(got)s, expected ' + str(want) +
+                 ': the value must land in its own component and the other two start at 0')
+
+        def two(p=p, k=k):
+            o = new()
+            write(o, p, 7)
+            q = parts[(k + 1) % 3]
+            write(o, q, 9)
+            want2 = tuple(7 if x == p else 9 if x == q else 0 for x in parts)
+            ok = read(o) == want2
+            write(o, p, None)
+            return ok and read(o) == (None, None, None), (want2, read(o))
+        scenario('Timex().%s = 7, then the next component = 9, then %s = None' % (p, p), 'both kept, None clears the time', two,
+                 'setting a second component or resetting to None does not behave as one shared time of day: %(got)s')
+
+    def isolation():
+        a = new()
+        for p, v in zip(parts, (10, 30, 45)):
+            write(a, p, v)
+        b = new()
+        write(b, parts[0], 8)
+        return read(b) == (8, 0, 0) and read(a) == (10, 30, 45), 'second object %s, first object %s' % (read(b), read(a))
+    scenario('two Timex objects: a = 10:30:45, then b.hour = 8', 'b = (8, 0, 0), a unchanged', isolation,
+             'two Timex objects share their time of day: %(got)s - state created once (a default argument, a class attribute) '
+             'is installed in every instance, so parsing one TIMEX changes what another one formats to')
+
+    def sequence():
+        it.instantiate(tcls, ['T10:30:45'], {}, None)
+        b = it.instantiate(tcls, ['T08'], {}, None)
+        w = it.call_value(it.getattr(b, 'timex_value', None, None), [], {}, None)
+        return w == 'T08', w
+    scenario("Timex('T10:30:45') then Timex('T08').timex_value()", "'T08'", sequence,
+             "after parsing 'T10:30:45', parsing 'T08' formats as %(got)r: the second object carries the first one's minutes "
+             'and seconds')
+
     # fixed_format_number pads on the left with zeros to the given width
     fn = cx.meth('timex_date_helpers', 'TimexDateHelpers', 'fixed_format_number')
     ps = params_of(fn)
@@ -2177,8 +2424,13 @@ def run(chk):
     chk.rule('C14.wiring', 'Timex.__init__ and Timex.clone store every field under its own name', floor=30)
     chk.rule('C14.from', 'from_date / from_date_time / from_time pass year,month,day,hour,minute,second homonymously',
              floor=12)
-    chk.rule('C14.timeprop', 'hour/minute/second getters and setters address the same component of one shared Time '
-                             'object, other components default to 0; fixed_format_number left-pads with 0', floor=15)
+    chk.rule('C14.timeprop', 'hour/minute/second, run as properties: a value lands in its own component, the other two '
+                             'start at 0, None clears the time, two objects do not share their time of day; '
+                             'Time.__init__ stores homonymously; fixed_format_number left-pads with 0', floor=10)
+    chk.rule('C14.shared', 'no mutable default argument (object created once at definition time) is stored into an '
+                           'attribute', floor=3, control=True)
+    chk.rule('C14.fromvalue', 'from_time / from_date / from_date_time, run on a grid of values, yield the canonical TIMEX',
+             floor=3)
     chk.rule('C14.amount', 'the stored duration amount, as str() prints it, lies in the amount group and denotes the '
                            'parsed number (assign_properties run on probe amounts for every unit letter)', floor=5)
     chk.rule('C14.units', 'ISO 8601 designators: P<n>Y/M/W/D are stored in years/months/weeks/days, PT<n>H/M/S in '
@@ -2200,6 +2452,8 @@ def run(chk):
     rule_dispatch(cx, chk, fams, templates)
     rule_wiring(cx, chk)
     rule_time_plumbing(cx, chk)
+    rule_shared(cx, chk)
+    rule_fromvalue(cx, chk)
     rule_falsy_zero(cx, chk, shapes)
     chk.extra['shapes'] = len(shapes)
     chk.extra['templates'] = len(templates)
